@@ -1576,6 +1576,32 @@ fn de_i64_short_strings() {
     assert!(out == expect);
 }
 
+/// numeric strings convert by the target type's own decimal parser (documented rule "numeric strings"): the exact integer or the record
+/// fails -- never a value rounded through f64, saturated to the target's range, or truncated from a decimal fraction (concrete strings)
+#[kani::proof]
+#[kani::unwind(22)]
+#[kani::stub(alloc::fmt::format, format_stub)]
+fn de_int_strings_exact() {
+    let pos: (u32, u32) = kani::any();
+    // 2^53 + 1: not representable as f64
+    let out = observe(Data::String(String::from("9007199254740993")).to_cell_deserializer(pos).deserialize_i64(RecV));
+    assert!(out == Out::Ok(Got::I64(9007199254740993)));
+    let out = observe(Data::String(String::from("9007199254740993")).to_cell_deserializer(pos).deserialize_u64(RecV));
+    assert!(out == Out::Ok(Got::U64(9007199254740993)));
+    // out of the target's range: the record fails
+    let out = observe(Data::String(String::from("256")).to_cell_deserializer(pos).deserialize_u8(RecV));
+    assert!(out == Out::OtherErr);
+    let out = observe(Data::String(String::from("-1")).to_cell_deserializer(pos).deserialize_u16(RecV));
+    assert!(out == Out::OtherErr);
+    let out = observe(Data::String(String::from("255")).to_cell_deserializer(pos).deserialize_u8(RecV));
+    assert!(out == Out::Ok(Got::U8(255)));
+    // a decimal fraction is not an integer string
+    let out = observe(Data::String(String::from("1.5")).to_cell_deserializer(pos).deserialize_i32(RecV));
+    assert!(out == Out::OtherErr);
+    let out = observe(Data::String(String::from("-128")).to_cell_deserializer(pos).deserialize_i8(RecV));
+    assert!(out == Out::Ok(Got::I8(-128)));
+}
+
 // ---------------------------------------------------------------------------------------------
 // Part 2d -- same range facts through the public Range API and through serde's tuple impl
 // ---------------------------------------------------------------------------------------------
